@@ -29,6 +29,16 @@ def environments(ctx):
     envs = []
     if ctx.quick:
         cases = [('N2', 77.355), ('CO2', 230.0), ('n-butane', 298.15)]
+        # one input per shortcut: shipped adsorbates whose *stored* molar mass disagrees with their backend
+        # (every route must use one and the same source, or direct and indirect conversions disagree)
+        for a in pygaps.ADSORBATE_LIST:
+            if a.properties.get('backend_name') and a.properties.get('molar_mass'):
+                try:
+                    mm = ru.ads_consts(a.backend_name, 0.5 * (a.t_triple() + a.t_critical()))['M']
+                except Exception:
+                    continue
+                if abs(mm - a.properties['molar_mass']) > 1e-2 * mm:
+                    cases.append((a.name, 0.5 * (a.t_triple() + a.t_critical())))
     else:
         cases = []
         for a in pygaps.ADSORBATE_LIST:
@@ -485,6 +495,12 @@ def check_histories(ctx, envs):
             'gas_density(T2)': lambda: ads.gas_density(T2),
             'liquid_density(T)': lambda: ads.liquid_density(T),
             'surface_tension(T)': lambda: ads.surface_tension(T),
+            # queries that cannot be answered (supercritical / no temperature) must not poison later valid ones
+            'saturation_pressure(supercritical) [fails]': lambda: ads.saturation_pressure(tc * 1.3),
+            'liquid_density(supercritical) [fails]': lambda: ads.liquid_density(tc * 1.3),
+            'gas_density(supercritical) [fails]': lambda: ads.gas_density(tc * 1.3),
+            'molar->volume_gas without temperature [fails]': lambda: c_loading(2.5, 'molar', 'volume_gas', 'mmol', 'cm3', ads, None),
+            'absolute->relative without temperature [fails]': lambda: c_pressure(1.0, 'absolute', 'relative', 'bar', None, ads, None),
         }
         convs = {
             'absolute->relative': (lambda: c_pressure(1234.5, 'absolute', 'relative', 'Pa', None, ads, T), ru.c_pressure(1234.5, 'absolute', 'Pa', 'relative', None, c)),
@@ -552,7 +568,7 @@ def check_histories(ctx, envs):
 
 def run(ctx):
     envs = environments(ctx)
-    ctx.require('environments', len(envs), 3 if ctx.quick else 150)
+    ctx.require('environments', len(envs), 4 if ctx.quick else 150)
     vals = values(ctx)
     ctx.cov['rule'] = (
         'Full Cartesian product, in fixed order: all ordered pairs and all ordered triples of the 10 pressure, 27 loading '
